@@ -269,7 +269,7 @@ fn after_step(pool: &Pool<Mgr>, tasks: &[STask]) {
         }
         if !unwoken_waiters.is_empty() {
             if w.close_returned {
-                w.violate(&["C06"], "waiter-stranded-after-close", format!("callers {:?} are still blocked in get() after close() returned", unwoken_waiters));
+                w.violate(&["C06", "C02"], "waiter-stranded-after-close", format!("callers {:?} are still blocked in get() after close() returned", unwoken_waiters));
             } else {
                 let in_env_gets = w.gets.iter().filter(|g| g.outcome.is_none() && g.in_env.is_some()).count();
                 let in_use = w.held() + in_env_gets + woken_waiters;
@@ -469,8 +469,11 @@ pub fn run_seq(sc: &SeqScenario) -> Outcome {
         if closed && !pool.is_closed() {
             w(|w| w.violate(&["C06"], "is-closed-false", "is_closed() became false again".to_string()));
         }
+        // every oracle of this step gets its say (a violation found by one of
+        // them must not hide what another property's oracle would report); the
+        // history stops after the step
+        after_step(&pool, &tasks);
         if w(|w| w.viol.is_empty()) {
-            after_step(&pool, &tasks);
             note_state(fingerprint(&pool, &tasks));
         }
         if fresh_step {
